@@ -1,6 +1,6 @@
 #!/bin/bash
 # Runs every registered check (tier $1, default quick) on /repo as it is; prints one line per check.
-cd /verif || exit 2
+cd "$(dirname "$0")/.." || exit 2
 TIER="${1:-quick}"
 rc=0
 for id in $(python3 -c "import json;print(' '.join(c['property_id'] for c in json.load(open('MANIFEST.json'))['checks']))"); do
